@@ -253,7 +253,8 @@ class CGraph:
 
         utpm_x_list = []
         for xi in x_list:
-            element = numpy.asarray(xi).reshape((1,1) + numpy.shape(xi))
+            # a copy, like the other drivers: a program that updates its argument in place must not write into the caller's array
+            element = numpy.array(xi).reshape((1,1) + numpy.shape(xi))
             if not numpy.issubdtype(element.dtype, numpy.inexact):
                 element = element.astype(float)
             utpm_x_list.append(algopy.UTPM(element))
